@@ -100,6 +100,7 @@ func genDispatch(c *ctx) string {
 	b.WriteString("def dupScalarDropped : Bool := " + dupScalarForm(c) + "\n")
 	b.WriteString("def dirArgWrapperAccepted : Bool := " + dirArgTypeTest(c) + "\n")
 	b.WriteString("def descRaw : Bool := " + descForm(c) + "\n")
+	b.WriteString("def eventVarsEmpty : Bool := " + eventVarsForm(c) + "\n")
 	b.WriteString("def schemaDuringScan : Bool := " + schemaRollbackForm(c) + "\n")
 	lnc, su, sbe := replaceArgVarsForms(c)
 	b.WriteString("def objectUnchecked : Bool := " + objectArmForm(c) + "\n")
@@ -367,4 +368,23 @@ func inputValidateForm(c *ctx) string {
 		return "false"
 	}
 	return unknown("Input.Validate body", c.pos(fd))
+}
+
+// eventVarsForm reads (*Root).AddEvent and the subscribe site of ResolveExecutable: are events resolved with an
+// empty variable map (D38) or with the variables of the request that subscribed?
+func eventVarsForm(c *ctx) string {
+	ae, re := c.funcs["Root.AddEvent"], c.funcs["Root.ResolveExecutable"]
+	if ae == nil || re == nil {
+		return unknown("AddEvent", "root.go")
+	}
+	a := regexp.MustCompile(`\s+`).ReplaceAllString(c.src(ae.Body), " ")
+	r := regexp.MustCompile(`\s+`).ReplaceAllString(c.src(re.Body), " ")
+	switch {
+	case strings.Contains(a, "vars := map[string]interface{}{}") && strings.Contains(a, "root.resolve(event, vars, s.field, s.field.ConType, MaxResolveDepth)") && !strings.Contains(r, "sub.vars"):
+		return "true"
+	case !strings.Contains(a, "vars :=") && strings.Contains(a, "root.resolve(event, s.vars, s.field, s.field.ConType, MaxResolveDepth)") &&
+		strings.Contains(r, "if sub, _ := val.(*Subscription); sub != nil { sub.vars = opVars root.subscribe(sub)"):
+		return "false"
+	}
+	return unknown("AddEvent variables", c.pos(ae))
 }
